@@ -178,6 +178,8 @@ class _ReadSourceGenerator:
             if self.align and field.offset is None:
                 yield f"stream.seek(-stream.tell() & ({field.alignment} - 1), {io.SEEK_CUR})"
 
+        seen_anonymous = False
+
         for field in self.fields:
             field_type = field.type
 
@@ -208,6 +210,13 @@ class _ReadSourceGenerator:
             except TypeError:
                 size = None
                 is_dynamic = True
+
+            if is_dynamic and issubclass(field_type, BaseArray) and seen_anonymous:
+                # The size of the array may depend on a field of the anonymous structure, the generated code
+                # only knows the members of this structure itself as context
+                raise TypeError("Unsupported for compiler: dynamic array after an anonymous structure")
+            if field.name is None and issubclass(field_type, Structure):
+                seen_anonymous = True
 
             # Sub structure
             if issubclass(field_type, Structure):
